@@ -22,7 +22,7 @@ def run_protoc(
     out_dir: Optional[str],
     desc_path: Optional[str] = None,
     opts: Sequence[str] = (),
-    timeout: float = 120,
+    timeout: float = 900,
 ) -> subprocess.CompletedProcess:
     """protoc (grpc_tools) + betterproto plugin from the tree under test (ruff = identity shim)."""
     cmd = [env.PY, "-m", "grpc_tools.protoc", f"-I{proto_dir}"]
